@@ -224,3 +224,31 @@ def run(repo: Repo, rep: Report, tier: str) -> None:
     from .shared import borrow as _borrow20
     _borrow20(repo, rep, "C04", "C04-R5", "C20-R7", "every anchor created for a name is wired: wire population leaves no sink of a producer out, whichever routing strategy is used",
               select=lambda o: "sinks handed to the spanning tree" in o.construct or "always routed directly" in o.construct, floor=2)
+
+    # ---------------- R8 ---------------------------------------------------------------
+    rep.rule("C20-R8", "names of bundles are treated like names of signals: every reference class that the lowerer stores in the name table (the members of ValueRef that carry a "
+             "source_id) is followed through `replacements` by repoint_signal_refs and is entered in the analyzer's alias map (name -> producer); a class left out keeps "
+             "pointing at an eliminated node or never gets an alias anchor")
+    def _isinstance_classes(test):
+        out = set()
+        for x in ast.walk(test):
+            if isinstance(x, ast.Call) and call_name(x) == "isinstance" and len(x.args) == 2:
+                t_ = x.args[1]
+                out |= {e.id for e in (t_.elts if isinstance(t_, ast.Tuple) else [t_]) if isinstance(e, ast.Name)}
+        return out
+    ref_classes = sorted(c.name for c in repo.all_classes() if c.name.endswith("Ref") and any(
+        isinstance(n, ast.Assign) and norm(n.targets[0]) == "self.source_id" for m in c.methods.values() for n in walk_local(m.node)))
+    rep.floor("C20-R8", "reference classes with a source_id", len(ref_classes), 2)
+    rp = repo.func("repoint_signal_refs")
+    rp_tests = [n.test for n in walk_local(rp.node) if isinstance(n, ast.If)]
+    rp_classes = set().union(*[_isinstance_classes(t_) for t_ in rp_tests]) if rp_tests else set()
+    an8 = repo.func("SignalAnalyzer.analyze")
+    alias_loops = [n for n in walk_local(an8.node) if isinstance(n, ast.For) and norm(n.iter) == "self.signal_refs.items()"]
+    if not alias_loops:
+        raise AnalysisError("C20-R8: the alias-map loop over self.signal_refs was not found in SignalAnalyzer.analyze")
+    al_classes = set().union(*[_isinstance_classes(x.test) for n in alias_loops for x in n.body if isinstance(x, ast.If)])
+    for cname in ref_classes:
+        rep.check(cname in rp_classes, "C20-R8", f"repoint_signal_refs follows {cname} names", "covered" if cname in rp_classes else
+                  f"only {sorted(rp_classes)} are re-pointed: `Bundle c = b * 3; Bundle d = b * 3;` leaves d on the eliminated node — no label, no anchor", rp.loc())
+        rep.check(cname in al_classes, "C20-R8", f"the alias map records {cname} names", "covered" if cname in al_classes else
+                  f"only {sorted(al_classes)} enter the alias map: a second name of a {cname} producer never becomes an output alias and gets no anchor", an8.loc(alias_loops[0]))
